@@ -3,6 +3,7 @@
 -/
 import Props.Writer
 import Props.C03
+import Props.ImageGroup
 namespace Slinky.C05
 open Slinky W
 
@@ -120,5 +121,31 @@ example : Style.splat.linkerOffset c!"mark" = c!"mark_OFFSET" := by decide
 example : Style.makerom.classSize c!"ovl" = c!"_ovlVramClassSize" := by decide
 example : Style.splat.segVramStart (kindName { name := c!"boot", files := [], allocSections := [], noloadSections := [] } true)
     = c!"boot_noload_VRAM" := by decide
+
+/-! ### in the linked image (the linker semantics `Slinkyv.Ld`, validated against GNU ld on every linked case) -/
+
+open Ld in
+/-- **C05, image clause for one section group**: for every object table and every state of
+the link inside an output section, after the group's statements its start symbol `s` and end
+symbol `e` satisfy `s ≤ e`, its size symbol is `e - s` (32-bit), and the input sections the
+group's statements placed are exactly bracketed: each lies in `[s, e]`, inside the open
+output section. -/
+theorem image_group_symbols (objs : List InSec) (cx : Ctx) (seg : Segment) (sec : Str) (hsy : cx.emitSecSyms = true)
+    (body : List Line) (hb : ∀ l ∈ body, BodyLine cx.d.settings.style seg.wildcardSections l)
+    (c : Cur) (st : St) (hin : Inside c st) (k : List Line) :
+    ∃ (s e : Nat) (new : List Placed) (st' : St),
+      st' = execK objs st (sectionSymStart cx seg sec ++ body ++ sectionSymEnd cx seg sec) k ∧
+      lookupLast (cx.d.settings.style.secStart seg.name sec) st'.syms = some (.num s) ∧
+      lookupLast (cx.d.settings.style.secEnd seg.name sec) st'.syms = some (.num e) ∧
+      lookupLast (cx.d.settings.style.secSize seg.name sec) st'.syms = some (.num ((e + M32 - s % M32) % M32)) ∧
+      s ≤ e ∧ st'.placed = st.placed ++ new ∧
+      ∀ p ∈ new, s ≤ p.addr ∧ p.addr + p.inp.size ≤ e ∧ p.out = c.name := by
+  obtain ⟨s, e, new, st', h0, _, _, h3, _, _, _, h7, h8, h9, h10, h11, _⟩ := group_image objs cx seg sec hsy body hb c st hin k
+  exact ⟨s, e, new, st', h0, h7, h8, h9, h3, h10, chainOk_mem _ _ _ _ h11⟩
+
+/-- the size symbol is the plain difference whenever the group is smaller than 4 GiB. -/
+theorem size_is_difference (s e : Nat) (h : s ≤ e) (he : e < Ld.M32) : (e + Ld.M32 - s % Ld.M32) % Ld.M32 = e - s := by
+  unfold Ld.M32 at *
+  omega
 
 end Slinky.C05
